@@ -9,6 +9,15 @@ def RunsToDone (mech : Mech) : List Bytes → List Bytes → Prop
   | hist, [] => (mech hist).kind = .done
   | hist, c :: cs => (mech hist).kind = .more ∧ RunsToDone mech (hist ++ [c]) cs
 
+/-- the decoded payloads of the `<challenge/>` elements of a script, in order -/
+def chalBytes : List CEv → List Bytes
+  | [] => []
+  | .challenge p :: r =>
+    match p.decodeClient with
+    | some c => c :: chalBytes r
+    | none => chalBytes r
+  | _ :: r => chalBytes r
+
 /-- a consumed element that is a `<challenge/>` with decodable payload -/
 def GoodChallenge (e : CEv) : Prop := ∃ q c, e = .challenge q ∧ q.decodeClient = some c
 
@@ -45,10 +54,11 @@ one decodable `<success/>` -/
 theorem clientLoop_sound (mech : Mech) (peer : List CEv) : ∀ (hist : List Bytes),
     (clientLoop mech hist peer).authn = true → (mech hist).kind = .more →
     (clientLoop mech hist peer).err = .none ∧
-    (∃ ext, (clientLoop mech hist peer).hist = hist ++ ext ∧ RunsToDone mech hist ext) ∧
-    ∃ pre p c rest, peer = pre ++ .success p :: rest ∧
+    ∃ ext pre p c rest, (clientLoop mech hist peer).hist = hist ++ ext ∧ RunsToDone mech hist ext ∧
+      peer = pre ++ .success p :: rest ∧
       (clientLoop mech hist peer).consumed = pre.length + 1 ∧
-      p.decodeClient = some c ∧ ∀ e ∈ pre, GoodChallenge e := by
+      p.decodeClient = some c ∧ (∀ e ∈ pre, GoodChallenge e) ∧
+      (ext = chalBytes pre ∨ ext = chalBytes pre ++ [c]) := by
   induction peer with
   | nil => intro hist h; simp [clientLoop, fail] at h
   | cons ev rest ih =>
@@ -61,25 +71,27 @@ theorem clientLoop_sound (mech : Mech) (peer : List CEv) : ∀ (hist : List Byte
         cases hk : (mech (hist ++ [c])).kind with
         | more =>
           simp only [clientLoop, hp, hk, CRes.after_authn] at h
-          obtain ⟨e1, ⟨ext, e2, e3⟩, pre, q, d, rest', e4, e4', e5, e6⟩ := ih (hist ++ [c]) h hk
+          obtain ⟨e1, ext, pre, q, d, rest', e2, e3, e4, e4', e5, e6, e7⟩ := ih (hist ++ [c]) h hk
           simp only [clientLoop, hp, hk, CRes.after_err, CRes.after_hist, CRes.after_consumed]
-          refine ⟨e1, ⟨c :: ext, by simp [e2], ⟨hm, e3⟩⟩, .challenge p :: pre, q, d, rest', ?_, ?_, e5, ?_⟩
+          refine ⟨e1, c :: ext, .challenge p :: pre, q, d, rest', by simp [e2], ⟨hm, e3⟩, ?_, ?_, e5, ?_, ?_⟩
           · simp [e4]
           · simp [e4']
           · intro e he
             rcases List.mem_cons.mp he with rfl | he
             · exact ⟨p, c, rfl, hp⟩
             · exact e6 e he
+          · rcases e7 with e7 | e7 <;> simp [chalBytes, hp, e7]
         | done =>
           simp only [clientLoop, hp, hk, CRes.after_authn] at h
           obtain ⟨e1, e2, _, q, d, rest', e4, e4', e5⟩ := readFinal_sound (hist ++ [c]) rest h
           simp only [clientLoop, hp, hk, CRes.after_err, CRes.after_hist, CRes.after_consumed]
-          refine ⟨e1, ⟨[c], e2, ⟨hm, hk⟩⟩, [.challenge p], q, d, rest', ?_, ?_, e5, ?_⟩
+          refine ⟨e1, [c], [.challenge p], q, d, rest', e2, ⟨hm, hk⟩, ?_, ?_, e5, ?_, ?_⟩
           · simp [e4]
           · simp [e4']
           · intro e he
             simp only [List.mem_cons, List.not_mem_nil, or_false] at he
             exact ⟨p, c, he, hp⟩
+          · left; simp [chalBytes, hp]
         | authnErr => simp [clientLoop, hp, hk, fail] at h
         | otherErr => simp [clientLoop, hp, hk, fail] at h
     | success p =>
@@ -92,7 +104,7 @@ theorem clientLoop_sound (mech : Mech) (peer : List CEv) : ∀ (hist : List Byte
           have e : clientLoop mech hist (.success p :: rest) =
               { authn := true, hist := hist ++ [c], consumed := 1 } := by simp [clientLoop, hp, hk]
           rw [e]
-          exact ⟨rfl, ⟨[c], rfl, ⟨hm, hk⟩⟩, [], p, c, rest, by simp, rfl, hp, by simp⟩
+          exact ⟨rfl, [c], [], p, c, rest, rfl, ⟨hm, hk⟩, by simp, rfl, hp, by simp, Or.inr (by simp [chalBytes])⟩
         | authnErr => simp [clientLoop, hp, hk, fail] at h
         | otherErr => simp [clientLoop, hp, hk, fail] at h
     | failure => simp [clientLoop, fail] at h
